@@ -238,6 +238,23 @@ def run(rep, tier, rng):
                       ("special", "Identity"), ("special", "Zero"), ("special", "AbsorbingElement"),
                       ("mul", ("num", 2, 1, False), ("special", "Identity")), ("add", ("num", 1, 1, False), ("num", 2, 1, False))]:
                 parse_case(e, to_text(e, rng), "number" if e[0] in ("num",) or (e[0] in ("mul", "add") and e[1][0] == "num" and e[2][0] == "num") else "special")
+            # parse_n: every argument is one expression, whatever their number and length
+            for texts_e in ([("mul", ("name", 0), ("name", 1))], [("name", 0), ("add", ("name", 1), ("name", 2))], [("name", 3)],
+                            [("mul", ("name", 0), ("special", "Identity")), ("name", 1), ("inv", ("name", 2))], [("num", 12, 1, False)]):
+                texts = [to_text(x, rng) for x in texts_e]
+                with warnings.catch_warnings():
+                    warnings.simplefilter("ignore")
+                    on = c.observe(lambda: [r.v for r in voc.parse_n(*texts)])
+                for i_, x in enumerate(texts_e):
+                    if on[0] == "ok":
+                        oi = ("ok", on[1][i_], on[2], on[3]) if i_ < len(on[1]) else ("IndexError", "parse_n returned too few results")
+                    else:
+                        oi = on
+                    add(f"check_parse {al} {c.nat(d)} {cents} {to_coq(x)} ({c.z(big)}, 1000000000%Z) {obs_t(oi)}",
+                        {"op": "parse_n", "alg": al, "d": d, "text": f"parse_n{tuple(texts)!r}[{i_}]", "entries": ents, "obs": c.obs_json(oi) if oi[0] == "ok" else list(oi[:2])},
+                        ("parse_n", al, d, tuple(texts), i_))
+                if on[0] == "ok" and len(on[1]) != len(texts):
+                    rep.violation(f"parse_n{tuple(texts)!r} returned {len(on[1])} results for {len(texts)} expressions", {"case": {"alg": al, "d": d, "texts": texts}})
             # errors: unknown name (strict), non-pointer result, malformed text
             for text, want in [("E", SpaParseError), ("A + E", SpaParseError), ("'abc'", SpaParseError), ("None", SpaParseError),
                                ("[1, 2]", SpaParseError), ("A +* B", SyntaxError), ("A B", SyntaxError), ("(A", SyntaxError)]:
@@ -290,10 +307,12 @@ def run(rep, tier, rng):
                         # print with the populate-local names
                         import re as _re
                         txt2 = _re.sub(r"\b([ABCD])\b", lambda mm: names[NAMES.index(mm.group(1)) % len(names)], txt)
-                        text_parts.append(f"{nm} {rng.choice(['=', ' = ', '='])} {txt2}")
+                        # multi-line populate strings: the right-hand side may start / end with a newline and indentation
+                        lead, trail = (rng.choice(["", " ", "\n    ", "\n"]), rng.choice(["", " ", "\n    ", "\n"])) if run_i % 2 == 0 else (" ", "")
+                        text_parts.append(f"{nm} {rng.choice(['=', ' = ', '='])}{lead}{txt2}{trail}")
                         items.append((nm, "assign", e, list(names)))
                     names.append(nm)
-                text = ";".join(text_parts)
+                text = (";" if run_i % 2 else rng.choice([";", ";\n", ";\n    "])).join(text_parts)
                 with warnings.catch_warnings():
                     warnings.simplefilter("ignore")
                     o = c.observe(lambda: pv.populate(text))
@@ -455,7 +474,7 @@ def run(rep, tier, rng):
             key = "parse-number-uses-hrr-identity"
         snippet = algs.PRELUDE + f"import nengo_spa as spa\nA = {algs.alg_py(m['alg'])}\nv = spa.Vocabulary({m['d']}, algebra=A)\n" \
             + "".join(f"v.add({nm!r}, np.array({vec}, float))\n" for nm, vec in zip(NAMES, m["entries"])) \
-            + f"print(v.parse({m['text']!r}).v)\nassert False, 'parsed value differs from applying the written operators to the entries in the vocabulary algebra'\n"
+            + (f"print(v.{m['text']}.v)\n" if m["op"] == "parse_n" else f"print(v.parse({m['text']!r}).v)\n") + "assert False, 'parsed value differs from applying the written operators to the entries in the vocabulary algebra'\n"
         rep.violation(f"{m['op']} {m['text']!r} ({m['alg']}, d={m['d']}) does not evaluate to the written operators applied to the entries",
                       {"case": {k: v for k, v in m.items() if k != "obs"}, "observed": m["obs"], "python": snippet, "finding_key": key,
                        "expected": "Model/Parse.v eval in the vocabulary's algebra"})
